@@ -139,6 +139,81 @@ class _WRaw(io.RawIOBase):
                 super().close()
 
 
+class _RWRaw(io.RawIOBase):
+    """read/write device for 'r+', 'w+', 'a+', 'x' opens: positioned writes straight into the file image"""
+
+    def __init__(self, world, inc, path, append=False):
+        super().__init__()
+        self._w, self._inc, self._path, self._append = world, inc, path, append
+        self._pos = len(world.files.get(path, b"")) if append else 0
+        self.name = path
+        self._n = 0
+
+    def readable(self):
+        return True
+
+    def writable(self):
+        return True
+
+    def seekable(self):
+        return True
+
+    def seek(self, off, whence=0):
+        size = len(self._w.files.get(self._path, b""))
+        self._pos = off if whence == 0 else (self._pos + off if whence == 1 else size + off)
+        return self._pos
+
+    def tell(self):
+        return self._pos
+
+    def readinto(self, b):
+        data = self._w.files.get(self._path, b"")
+        n = max(0, min(len(b), len(data) - self._pos))
+        b[:n] = data[self._pos:self._pos + n]
+        self._pos += n
+        return n
+
+    def write(self, b):
+        if self._inc.dead:
+            return len(b)
+        b = bytes(b)
+        self._w.gate(self._inc, "write", self._path, nbytes=len(b))
+        if self._path not in self._w.files:
+            return len(b)
+        data = self._w.files[self._path]
+        if self._append:
+            self._pos = len(data)
+        if self._pos > len(data):
+            data = data + b"\0" * (self._pos - len(data))
+        self._w.files[self._path] = data[:self._pos] + b + data[self._pos + len(b):]
+        self._pos += len(b)
+        self._n += len(b)
+        self._w.log_event(self._inc, "write", self._path, "ok", len(b))
+        self._w.note_mutation(self._inc, self._path)
+        return len(b)
+
+    def truncate(self, size=None):
+        if self._inc.dead:
+            return 0
+        size = self._pos if size is None else size
+        self._w.gate(self._inc, "truncate", self._path, nbytes=size)
+        if self._path in self._w.files:
+            data = self._w.files[self._path]
+            self._w.files[self._path] = data[:size] + b"\0" * max(0, size - len(data))
+            self._w.log_event(self._inc, "truncate", self._path, "ok", size)
+            self._w.note_mutation(self._inc, self._path)
+        return size
+
+    def close(self):
+        if not self.closed:
+            try:
+                if not self._inc.dead:
+                    self._w.gate(self._inc, "close", self._path, nbytes=self._n)
+                    self._w.log_event(self._inc, "close-w", self._path, "ok", self._n)
+            finally:
+                super().close()
+
+
 # ---------------------------------------------------------------------------
 class Incarnation:
     """One life of a task (a task restarted after a crash gets a new one)."""
@@ -317,10 +392,10 @@ class World:
         inc = self.current
         m = set(mode)
         binary = "b" in m
-        if "+" in m or "x" in m:
-            raise Unsupported("open mode %r on simulated path %s" % (mode, path))
         if encoding is None and not binary:
             encoding = inc.task.locale if inc else "utf-8"
+        if "+" in m or "x" in m:
+            return self._open_rw(inc, path, m, binary, buffering, encoding, errors, newline)
         if "r" in m:
             action = self.gate(inc, "open-r", path)
             data = None
@@ -365,6 +440,39 @@ class World:
         return io.TextIOWrapper(io.BufferedWriter(raw), encoding=encoding,
                                 errors=errors, newline=newline,
                                 write_through=False)
+
+    def _open_rw(self, inc, path, m, binary, buffering, encoding, errors, newline):
+        """'r+' (must exist, no truncation), 'w+' (truncate/create), 'a+' (append), 'x'/'x+' (exclusive)"""
+        opname = "open-rw" if "r" in m else ("open-a" if "a" in m else "open-w")
+        self.gate(inc, opname, path)
+        if path in self.dirs:
+            self.log_event(inc, opname, path, "EISDIR")
+            raise IsADirectoryError(errno.EISDIR, os.strerror(errno.EISDIR), path)
+        exists = path in self.files
+        if "r" in m and not exists:
+            self.log_event(inc, opname, path, "ENOENT")
+            raise self._enoent(path)
+        if "x" in m and exists:
+            self.log_event(inc, opname, path, "EEXIST")
+            raise FileExistsError(errno.EEXIST, os.strerror(errno.EEXIST), path)
+        if not exists and os.path.dirname(path) not in self.dirs:
+            self.log_event(inc, opname, path, "ENOENT")
+            raise self._enoent(path)
+        if "w" in m or "x" in m:
+            self.files[path] = b""
+            self.note_mutation(inc, path)
+        elif not exists:
+            self.files[path] = b""
+            self.note_mutation(inc, path)
+        self.log_event(inc, opname, path, "ok", len(self.files[path]))
+        raw = _RWRaw(self, inc or _HARNESS_INC, path, append="a" in m)
+        if "+" not in m:            # plain 'x': write-only
+            buf = io.BufferedWriter(raw)
+        else:
+            buf = io.BufferedRandom(raw)
+        if binary:
+            return buf if buffering != 0 else raw
+        return io.TextIOWrapper(buf, encoding=encoding, errors=errors, newline=newline)
 
     def sim_stat(self, path):
         inc = self.current
